@@ -49,7 +49,9 @@ const START: u32 = 100;
 /// context types written by operations: 0 Default, 1 CallContract(T1), 2 CreateContract(W);
 /// 3 = CallContract(T2) is only ever queried (must stay empty)
 const CTX_ALL: [u8; 4] = [0, 1, 2, 3];
-const NAMES: [&str; 3] = ["multisig", "n1", "n2"];
+/// rule names: index 0 = whatever the example's constructor chose, 1 = given by `add_context_rule`
+/// calls of this check, 2 = given by renames
+const NAMES: [&str; 3] = ["<constructor>", "n1", "n2"];
 
 #[derive(Clone, Debug, PartialEq, Eq)]
 enum Op {
@@ -79,6 +81,9 @@ struct AModel {
     rules: BTreeMap<u32, Rule>,
     /// every id ever handed out
     issued: BTreeSet<u32>,
+    /// an operation of the seed's set-up that the model admits was refused by the contract
+    /// (reported as a violation by the first step from that seed; replayable)
+    seed_fail: Option<String>,
 }
 
 impl AModel {
@@ -118,6 +123,8 @@ struct AInst {
     wasm: BytesN<32>,
     signers: Vec<Signer>,
     policies: Vec<Address>,
+    /// the name the example's constructor gave to its rule (name index 0)
+    ctor_name: SString,
 }
 
 impl AInst {
@@ -133,7 +140,11 @@ impl AInst {
         CTX_ALL.iter().copied().find(|k| self.ctx(*k) == *c)
     }
     fn name(&self, k: u8) -> SString {
-        SString::from_str(&self.e, NAMES[k as usize])
+        if k == 0 {
+            self.ctor_name.clone()
+        } else {
+            SString::from_str(&self.e, NAMES[k as usize])
+        }
     }
     fn name_idx(&self, s: &SString) -> Option<u8> {
         (0..NAMES.len() as u8).find(|k| self.name(*k) == *s)
@@ -455,12 +466,29 @@ impl World for Acct {
         sv.push_back(signers[0].clone());
         let pm: Map<Address, Val> = Map::new(&e);
         let c = e.register(multisig::MultisigContract, (sv, pm));
-        let i = AInst { e, c, t, wasm, signers, policies };
-        let mut m = AModel { rules: BTreeMap::new(), issued: BTreeSet::new() };
+        let ctor_name = view(&e, &c, "get_context_rule", (0u32,).into_val(&e))
+            .ok()
+            .and_then(|v| ContextRule::try_from_val(&e, &v).ok())
+            .map(|r| r.name)
+            .unwrap_or_else(|| SString::from_str(&e, "?"));
+        let i = AInst { e, c, t, wasm, signers, policies, ctor_name };
+        let mut m = AModel { rules: BTreeMap::new(), issued: BTreeSet::new(), seed_fail: None };
         m.rules.insert(0, Rule { ctx: 0, name: 0, valid: None, signers: [0u8].into(), policies: BTreeSet::new() });
         m.issued.insert(0);
         for op in &self.seeds[seed].1 {
-            let r = self.exec(&i, op).unwrap_or_else(|x| panic!("seed {} of {}: {:?} failed: {:?}", self.seeds[seed].0, self.name, op, x));
+            let r = match self.exec(&i, op) {
+                Ok(r) => r,
+                Err(x) => {
+                    // the set-up consists of admissible operations only
+                    m.seed_fail = Some(format!(
+                        "set-up of seed '{}': {op:?} was refused ({x:?}) although the registry admits it{}; model before: {:?}",
+                        self.seeds[seed].0,
+                        self.fills_limit(&m, op).map(|f| format!(" (it fills the {f} capacity to exactly its documented maximum)")).unwrap_or_default(),
+                        m.rules
+                    ));
+                    break;
+                }
+            };
             let new_id = match op {
                 Op::AddRule { .. } => Some(ContextRule::try_from_val(&i.e, &r).expect("rule").id),
                 _ => None,
@@ -528,6 +556,9 @@ impl World for Acct {
     }
 
     fn step(&self, i: &mut AInst, m: &mut AModel, op: &Op, cx: &mut StepCtx<Self>) -> Result<bool, Violation> {
+        if let Some(f) = &m.seed_fail {
+            return Err(viol("seed-admissible-refused", f.clone()));
+        }
         let expect = self.expect(m, op);
         let fills = self.fills_limit(m, op);
         let res = self.exec(i, op);
@@ -675,7 +706,7 @@ fn acct_worlds(tier: Tier) -> Vec<(Acct, Bounds)> {
                 max_targets: 8,
                 leaf_adds: false,
             },
-            Bounds::new(dpt("acct-rule-lifecycle-deep", tier.pick(6, 8)), wl(tier.pick(4, 60))),
+            Bounds::new(dpt("acct-rule-lifecycle-deep", tier.pick(7, 9)), wl(tier.pick(4, 60))),
         ));
     }
 
@@ -849,6 +880,8 @@ enum COp {
 #[derive(Clone, Debug, Hash)]
 struct CModel {
     reg: [BTreeSet<u8>; HOOKS],
+    /// a registration of the seed's set-up (all admissible) was refused by the contract
+    seed_fail: Option<String>,
 }
 
 struct Comp {
@@ -925,9 +958,17 @@ impl World for Comp {
         let mods: Vec<Address> = (0..self.nm).map(|_| Address::generate(&e)).collect();
         let c = e.register(wrap::ComplianceReg, ());
         let i = CInst { e, c, mods };
-        let mut m = CModel { reg: Default::default() };
+        let mut m = CModel { reg: Default::default(), seed_fail: None };
         for (h, k) in &self.seeds[seed].1 {
-            self.exec(&i, &COp::Add { hook: *h, m: *k }).unwrap_or_else(|x| panic!("seed {} of {}: add({h},{k}) failed: {x:?}", self.seeds[seed].0, self.name));
+            if let Err(x) = self.exec(&i, &COp::Add { hook: *h, m: *k }) {
+                m.seed_fail = Some(format!(
+                    "set-up of seed '{}': registering module M{k} for {:?} was refused ({x:?}) although the hook holds only {} modules",
+                    self.seeds[seed].0,
+                    hook(*h),
+                    m.reg[*h as usize].len()
+                ));
+                break;
+            }
             m.reg[*h as usize].insert(*k);
         }
         (i, m)
@@ -960,6 +1001,9 @@ impl World for Comp {
     }
 
     fn step(&self, i: &mut CInst, m: &mut CModel, op: &COp, cx: &mut StepCtx<Self>) -> Result<bool, Violation> {
+        if let Some(f) = &m.seed_fail {
+            return Err(viol("seed-admissible-refused", f.clone()));
+        }
         let (expect, fills): (Result<(), (&'static str, String)>, bool) = match op {
             COp::Add { hook: h, m: k } => {
                 let set = &m.reg[*h as usize];
@@ -1023,7 +1067,7 @@ impl World for Comp {
     }
 
     fn model_digest(&self, m: &CModel) -> u64 {
-        dig(m)
+        dig(&m.reg)
     }
 }
 
